@@ -193,3 +193,20 @@ Example C18_nonvacuous :
    OVal (VInt 9); OVal (VInt 8); OVal (VInt 98); ONone; OVal (VInt 7); OVal (VInt 1); OVal (VInt 2); OVal (VInt 99);
    ONone; OVal (VInt 7); ONone; OVal (VInt 3); ONone; ONone; OVal (VInt 4)].
 Proof. repeat split; vm_compute; reflexivity. Qed.
+
+(* ---- a parameter, read by the compiled code of a function body ---- *)
+Require Calc.LExprCorrect.
+Require Import Calc.Ast Calc.ExprCorrect Calc.LExprSem.
+(* the operand the compiler returns for local variable ix denotes, in any activation whose frame holds L,
+   the value L holds at ix — whatever lies above the frame, however far the stack has grown
+   (LExprCorrect.lfr is stable under everything that keeps the cells below the stack pointer: lfr_msame) *)
+Theorem C18_local_operand_is_the_variable : forall L ix n sel fl s s' w,
+  0 <= ix < zlen L -> wfcs s -> Compile.comp_ref (NLocal ix n) sel s = COk (w, s') ->
+  LExprCorrect.SpecD L (fun G => lden L G (NLocal ix n)) sel fl s s' w.
+Proof. exact LExprCorrect.local_spec. Qed.
+Print Assumptions C18_local_operand_is_the_variable.
+
+Theorem C18_frame_survives_what_keeps_the_stack_below : forall L m m1,
+  LExprCorrect.lfr L m -> ExprVM.msame (m_sp m) m m1 -> 0 <= m_sp m -> LExprCorrect.lfr L m1.
+Proof. exact LExprCorrect.lfr_msame. Qed.
+Print Assumptions C18_frame_survives_what_keeps_the_stack_below.
